@@ -89,7 +89,12 @@ func (s *Snapshot) Aggregate(similar Similarity) *Aggregated {
 		if r.Signature.less(&l.Signature) {
 			return false
 		}
-		return len(r.IDs) > len(l.IDs)
+		if len(r.IDs) != len(l.IDs) {
+			return len(r.IDs) > len(l.IDs)
+		}
+		// The buckets come out of a map; break the tie so the order does not
+		// depend on its iteration order.
+		return l.IDs[0] < r.IDs[0]
 	})
 	return &Aggregated{
 		Snapshot: s,
